@@ -492,11 +492,17 @@ class JGen(sg.Gen):
         anchor = self.pick_anchor()
         used = {"sh": set(), "ex": set(), "csh": set(), "cex": set()}
         members = []
+        loose = rng.random() < 0.2
         # one finite positive member first (so that the join is never unconstrained), then anything
         tries = 0
         while len(members) < nm and tries < 300:
             tries += 1
-            m = self.member(kind, used, anchor, positive=(len(members) == 0))
+            # a lookup (by entity / by index) needs no member that bounds the iteration: one in five is made of
+            # optional and negated members only
+            need_pos = len(members) == 0 and not (kind in (K_GET, K_GETU) and loose)
+            m = self.member(kind, used, anchor, positive=need_pos)
+            if m is not None and loose and kind in (K_GET, K_GETU) and m[0] not in (M_MAYBE, M_ANTI):
+                m = None
             if m is not None:
                 members.append(m)
         if not members:
